@@ -36,9 +36,14 @@ int main(int argc, char** argv) {
   for (uint64_t i = 0; i < runs && c.nviol() < 50; i++) {
     int kind = (int)r.below(3);
     size_t nthreads = 1 + r.below(16);
+    bool default_threads = r.chance(1, 12);  // num_threads = 0: documented default = hardware concurrency
     uint64_t block = 1;
     uint64_t n;
     if (kind == 0) n = r.chance(1, 4) ? r.below(8) : r.below(5001);
+    if (kind == 0 && i % 29 == 7) {  // beyond any internal batching threshold, not a multiple of a power of two
+      static const uint64_t big[] = {0x10001, 0x100FF, 70001, 131071, 200003, 0x10000, 0x20100};
+      n = big[r.below(7)];
+    }
     else {
       static const uint64_t bss[] = {1, 2, 5, 8, 16, 50, 100, 256, 1000};
       block = bss[r.below(9)];
@@ -60,10 +65,16 @@ int main(int argc, char** argv) {
     for (auto& x : cnt) x.store(0, std::memory_order_relaxed);
     vector<std::atomic<uint8_t>> ret_true(n ? n : 1);
     for (auto& x : ret_true) x.store(0, std::memory_order_relaxed);
+    size_t pass_threads = nthreads;
+    if (default_threads) {
+      pass_threads = 0;
+      nthreads = std::thread::hardware_concurrency();
+      if (nthreads == 0) nthreads = 1;
+    }
     vector<PerThread> pt(nthreads);
     std::atomic<uint64_t> outside{0}, bad_tn{0};
     returned.store(false);
-    string desc = fmt("%s threads=%zu start=%" PRIu64 " n=%" PRIu64 " block=%" PRIu64 " style=%d work=%d", kind == 0 ? "range" : kind == 1 ? "blocks" : "multi", nthreads, start, n, block, style, work);
+    string desc = fmt("%s threads=%zu%s start=%" PRIu64 " n=%" PRIu64 " block=%" PRIu64 " style=%d work=%d", kind == 0 ? "range" : kind == 1 ? "blocks" : "multi", nthreads, default_threads ? "(num_threads=0 passed)" : "", start, n, block, style, work);
     c.crumb_s(desc);
     auto fn = [&](uint64_t v, size_t tn) -> bool {
       if (returned.load()) late++;
@@ -95,9 +106,9 @@ int main(int argc, char** argv) {
     std::atomic<uint64_t> prog_calls{0};
     if (n < 64 && r.chance(1, 20)) prog = [&](uint64_t, uint64_t, uint64_t, uint64_t) { prog_calls++; };
     try {
-      if (kind == 0) result = phosg::parallel_range<uint64_t>(fn, start, end, nthreads, prog);
-      else if (kind == 1) result = phosg::parallel_range_blocks<uint64_t>(fn, start, end, block, nthreads, prog);
-      else multi = phosg::parallel_range_blocks_multi<uint64_t>(fn, start, end, block, nthreads, prog);
+      if (kind == 0) result = phosg::parallel_range<uint64_t>(fn, start, end, pass_threads, prog);
+      else if (kind == 1) result = phosg::parallel_range_blocks<uint64_t>(fn, start, end, block, pass_threads, prog);
+      else multi = phosg::parallel_range_blocks_multi<uint64_t>(fn, start, end, block, pass_threads, prog);
     } catch (const std::exception& e) {
       c.violation("stress:unexpected-exception", e.what(), desc);
     }
@@ -133,7 +144,7 @@ int main(int argc, char** argv) {
       if (result < start || result >= end || !ret_true[result - start].load())
         c.violation(fmt("stress:%s:result-not-a-hit", k), fmt("returned %" PRIu64 " which did not return true in this run", result), desc);
     }
-    c.cls(fmt("stress:%s:t%s:%s:%s", k, nthreads == 1 ? "1" : nthreads <= 4 ? "2-4" : nthreads <= 8 ? "5-8" : "9-16", !has_hit ? "nohit" : style == 1 ? "onehit" : "manyhits", n == 0 ? "empty" : n < 64 ? "small" : "large"));
+    c.cls(fmt("stress:%s:t%s:%s:%s", k, default_threads ? "default" : nthreads == 1 ? "1" : nthreads <= 4 ? "2-4" : nthreads <= 8 ? "5-8" : "9-16", !has_hit ? "nohit" : style == 1 ? "onehit" : "manyhits", n == 0 ? "empty" : n < 64 ? "small" : n <= 5000 ? "large" : "over-64K"));
     c.count("callback_events", total);
     c.count("progress_callback_calls", prog_calls.load());
     if (i < 3) c.sample("stress " + desc);
